@@ -19,7 +19,7 @@ MoveAlgos == {"uninitialized_move", "uninitialized_move_n"}
 RelocAlgos == {"uninitialized_relocate", "uninitialized_relocate_n"}
 CtorAlgos == {"uninitialized_default_construct", "uninitialized_default_construct_n", "uninitialized_value_construct",
               "uninitialized_value_construct_n"}
-SrcKinds == {"ptr", "ra", "bidir", "fwd", "move"}
+SrcKinds == {"ptr", "ra", "bidir", "fwd", "move", "rev"}     \* rev: std::reverse_iterator<T*>: random access, NOT contiguous
 DstKinds == {"ptr", "ra"}
 Cats == {"TC", "TR", "NTR", "NTRM"}
 
@@ -49,6 +49,9 @@ MemExpect(lb) ==
       src0 == [i \in 1..n |-> Live(i)]
       dst0 == [i \in 1..n + 1 |-> Raw]
       thr == Throws(lb)
+      \* the i-th element read comes from source slot Ord(i); slot j is read at step Pos(j)
+      Ord(i) == IF lb.sit = "rev" THEN n + 1 - i ELSE i
+      Pos(j) == IF lb.sit = "rev" THEN n + 1 - j ELSE j
       Res(src, dst, ret, ret2) == [src |-> src, dst |-> dst, ret |-> ret, ret2 |-> ret2, exc |-> thr]
   IN
   CASE lb.a = "construct_at" ->
@@ -60,17 +63,17 @@ MemExpect(lb) ==
     [] lb.a \in CopyAlgos \cup MoveAlgos ->
          IF thr
          THEN \* every object created is destroyed again; sources already moved from stay alive (moved-from)
-              Res([i \in 1..n |-> IF Moves(lb) /\ i < lb.k THEN AfterMove(lb, i) ELSE Live(i)], dst0, 0, 0)
-         ELSE Res([i \in 1..n |-> IF Moves(lb) THEN AfterMove(lb, i) ELSE Live(i)],
-                  [i \in 1..n + 1 |-> IF i <= n THEN Live(i) ELSE Raw], n, n)
+              Res([j \in 1..n |-> IF Moves(lb) /\ Pos(j) < lb.k THEN AfterMove(lb, j) ELSE Live(j)], dst0, 0, 0)
+         ELSE Res([j \in 1..n |-> IF Moves(lb) THEN AfterMove(lb, j) ELSE Live(j)],
+                  [i \in 1..n + 1 |-> IF i <= n THEN Live(Ord(i)) ELSE Raw], n, n)
     [] lb.a \in CtorAlgos ->
          IF thr THEN Res(src0, dst0, 0, 0)
          ELSE Res(src0, [i \in 1..n + 1 |-> IF i <= n THEN Live(0) ELSE Raw], n, 0)
     [] lb.a \in RelocAlgos ->
          IF thr
          THEN \* "the sources of a relocate stay alive"
-              Res([i \in 1..n |-> IF i < lb.k THEN AfterMove(lb, i) ELSE Live(i)], dst0, 0, 0)
-         ELSE Res([i \in 1..n |-> Gone], [i \in 1..n + 1 |-> IF i <= n THEN Live(i) ELSE Raw], n, n)
+              Res([j \in 1..n |-> IF Pos(j) < lb.k THEN AfterMove(lb, j) ELSE Live(j)], dst0, 0, 0)
+         ELSE Res([j \in 1..n |-> Gone], [i \in 1..n + 1 |-> IF i <= n THEN Live(Ord(i)) ELSE Raw], n, n)
     [] lb.a = "relocate_at" ->
          IF thr THEN Res(src0, dst0, 0, 0)
          ELSE Res([src0 EXCEPT ![1] = Gone], [dst0 EXCEPT ![1] = Live(1)], 0, 0)
